@@ -541,7 +541,7 @@ func tdCfg() *gen.TDCfg {
 func genCase(t *rapid.T) Case {
 	c := Case{VarExp: rapid.IntRange(0, 2).Draw(t, "varexp") == 0}
 	if rapid.IntRange(0, 2).Draw(t, "haspolicy") == 0 {
-		c.Policy = rapid.IntRange(1, 3).Draw(t, "policy")
+		c.Policy = rapid.IntRange(1, 4).Draw(t, "policy")
 	}
 	cfg := tdCfg()
 	if rapid.IntRange(0, 11).Draw(t, "toplevel") == 0 {
